@@ -191,17 +191,24 @@ def main():
         try:
             prog = json.loads(f[3])
             if prog == "LEN":
-                # fixed probe: a block that rebinds a tracked list to a list of another length
+                # fixed probe: a block that rebinds a tracked list to a list of another length (the replay of the repaired finding
+                # C09-list-length-truncated: the merge at the block exit must refuse with ValueError, whichever way the condition goes;
+                # a list of values here means that the run completed, i.e. that the merge zipped the two lists)
                 from pysnark.branching import BranchingValues as _BV, _if as __if, _endif as __endif
-                W.reset({"p": W.DEFAULT_P, "bl": int(f[2])})
                 res = {}
                 for c in (1, 0):
+                    W.reset({"p": W.DEFAULT_P, "bl": int(f[2])})
                     _ = _BV()
                     _.l = [PrivVal(1), PrivVal(2)]
-                    if __if(PrivVal(c) == 1, ctx=_):
-                        _.l = [PrivVal(7), PrivVal(8), PrivVal(9)]
-                    __endif(ctx=_)
-                    res["taken" if c else "not_taken"] = [x.value for x in _.l]
+                    try:
+                        if __if(PrivVal(c) == 1, ctx=_):
+                            _.l = [PrivVal(7), PrivVal(8), PrivVal(9)]
+                        __endif(ctx=_)
+                        res["taken" if c else "not_taken"] = [x.value for x in _.l]
+                    except Exception as e:
+                        res["taken" if c else "not_taken"] = {"error": type(e).__name__, "msg": str(e)[:120]}
+                    _.stack.clear()
+                W.reset({"p": W.DEFAULT_P, "bl": int(f[2])})
                 sys.stdout.write(f"{f[1]}|" + json.dumps(res) + "\n"); sys.stdout.flush()
                 continue
             RAW[0] = bool(prog.get("rawcond"))
